@@ -11,11 +11,14 @@ import (
 	"encoding/json"
 	"flag"
 	"fmt"
+	"io"
+	"log"
 	"math/rand"
 	"os"
 	"path/filepath"
 	"sort"
 	"strings"
+	"time"
 )
 
 type specViolation struct {
@@ -26,21 +29,21 @@ type specViolation struct {
 }
 
 type report struct {
-	Property           string           `json:"property"`
-	Seed               int64            `json:"seed"`
-	Tier               string           `json:"tier"`
-	Evaluations        int              `json:"evaluations"`
-	DistinctNontrivial int              `json:"distinct_nontrivial"`
-	Rule               string           `json:"rule"`
-	Samples            []any            `json:"samples"`
-	Histograms         map[string]any   `json:"histograms"`
-	TargetsMissed      []string         `json:"targets_missed"`
-	SpecChecks         int              `json:"spec_checks"`
-	SpecViolations     []specViolation  `json:"spec_violations"`
-	CaseFiles          []string         `json:"case_files"`
-	CaseInputs         map[string]any   `json:"case_inputs,omitempty"` // index -> printable case, for replays
-	Exhaustive         bool             `json:"exhaustive"`
-	Notes              []string         `json:"notes,omitempty"`
+	Property           string          `json:"property"`
+	Seed               int64           `json:"seed"`
+	Tier               string          `json:"tier"`
+	Evaluations        int             `json:"evaluations"`
+	DistinctNontrivial int             `json:"distinct_nontrivial"`
+	Rule               string          `json:"rule"`
+	Samples            []any           `json:"samples"`
+	Histograms         map[string]any  `json:"histograms"`
+	TargetsMissed      []string        `json:"targets_missed"`
+	SpecChecks         int             `json:"spec_checks"`
+	SpecViolations     []specViolation `json:"spec_violations"`
+	CaseFiles          []string        `json:"case_files"`
+	CaseInputs         map[string]any  `json:"case_inputs,omitempty"` // index -> printable case, for replays
+	Exhaustive         bool            `json:"exhaustive"`
+	Notes              []string        `json:"notes,omitempty"`
 }
 
 type ctx struct {
@@ -103,13 +106,28 @@ func (c *ctx) violation(caseIdx int, class, detail string, input any) {
 }
 
 // Coq literals
-func qh(b []byte) string   { return `(unhex "` + hex.EncodeToString(b) + `")` }
-func qs(s string) string   { return qh([]byte(s)) }
-func qb(b bool) string     { if b { return "true" }; return "false" }
-func qn(n int) string      { return fmt.Sprintf("%d", n) }
-func qz(n int64) string    { if n < 0 { return fmt.Sprintf("(%d)%%Z", n) }; return fmt.Sprintf("%d%%Z", n) }
+func qh(b []byte) string { return `(unhex "` + hex.EncodeToString(b) + `")` }
+func qs(s string) string { return qh([]byte(s)) }
+func qb(b bool) string {
+	if b {
+		return "true"
+	}
+	return "false"
+}
+func qn(n int) string { return fmt.Sprintf("%d", n) }
+func qz(n int64) string {
+	if n < 0 {
+		return fmt.Sprintf("(%d)%%Z", n)
+	}
+	return fmt.Sprintf("%d%%Z", n)
+}
 func qlist(xs []string) string { return "[" + strings.Join(xs, "; ") + "]" }
-func qopt(ok bool, v string) string { if ok { return "(Some " + v + ")" }; return "None" }
+func qopt(ok bool, v string) string {
+	if ok {
+		return "(Some " + v + ")"
+	}
+	return "None"
+}
 
 const shardSize = 2000
 
@@ -169,6 +187,21 @@ func (c *ctx) finish() {
 	os.WriteFile(filepath.Join(c.out, "report.json"), js, 0o644)
 }
 
+// withTimeout runs f in its own goroutine; false means it did not finish in time (the goroutine is abandoned)
+func withTimeout(d time.Duration, f func()) (ok bool, panicked any) {
+	done := make(chan any, 1)
+	go func() {
+		defer func() { done <- recover() }()
+		f()
+	}()
+	select {
+	case p := <-done:
+		return true, p
+	case <-time.After(d):
+		return false, nil
+	}
+}
+
 var props = map[string]func(*ctx){}
 
 func main() {
@@ -187,6 +220,7 @@ func main() {
 		fmt.Fprintln(os.Stderr, "unknown property", p)
 		os.Exit(2)
 	}
+	log.SetOutput(io.Discard) // perkeep logs a lot
 	c := newCtx(p, *seed, *tier, *out)
 	c.replay = *replay
 	f(c)
